@@ -4,7 +4,7 @@
 // A Go panic that nobody recovers kills the whole process, so every fault injection runs in a
 // SUBPROCESS: `gs-panics run` re-executes its own binary (`gs-panics child …`) once per op
 //
-//	inject <side> <kind> <block> <n> <pre> <ls>
+//	inject <side> <kind> <block> <n> <pre> <ls> [<val>]
 //
 // and the child runs a real two-peer exchange (impl.New on both ends of a libp2p mocknet, in-memory
 // link systems) in which the user-supplied function of kind <kind> on side <side> panics when it is
@@ -17,6 +17,12 @@
 //	pre    number of leading blocks of the target chain the requestor already holds locally
 //	ls     def: the target request uses the link system passed to impl.New, the concurrent sibling
 //	       uses a registered persistence option; opt: the other way round
+//	val    what is passed to panic (default str): str (a string) | err (an error value) |
+//	       rt-nilmap, rt-nilptr, rt-index (genuine runtime.Error panics: write to a nil map, nil
+//	       dereference, index out of range) | struct (a comparable struct value)
+//
+// A second op, `handler <nil|str|err|rt|struct> <cb|nocb>`, calls panics.MakeHandler directly (in
+// process) on such a value, with and without a callback, and prints what it returned and passed on.
 //
 // Besides the target request there are two SIBLING requests between the same two peers over other
 // chains: one started before the target and running concurrently with it, one started after the
@@ -24,18 +30,22 @@
 //
 // Output line per op (identical in format to the Lean model's, `gsm-panics`):
 //
-//	survived=<0|1> fired=<0|1> err=<none|panic|failed|hang|other> cb=<k> sibling=<0|1>
+//	survived=<0|1> fired=<0|1> err=<none|panic|failed|hang|other> cb=<k> val=<0|1|-> sibling=<0|1>
 //
-// survived: the child process exited normally (a crashed child prints `survived=0 fired=1 err=- cb=- sibling=-`);
+// survived: the child process exited normally (a crashed child prints `survived=0 fired=1 err=- cb=- val=- sibling=-`);
 // fired: the injected function was actually reached and panicked; err: what the requesting client
 // got on the target request's error channel (panic = a panics.RecoveredPanicErr carrying the
 // injected object, failed = the responder terminated the request with a failure status);
-// cb: number of panic-callback invocations with the injected object on the injected side;
+// cb: number of panic-callback invocations on the injected side; val: every one of them carried the
+// very value that was passed to panic, and so does the RecoveredPanicErr where it is visible
+// in-process (`-` when nothing fired);
 // sibling: both sibling requests delivered every block of their chains without error.
 //
 // The oracle is written from the property sentence, not from the model: whenever the injected
-// panic fired, the process must survive, the target request must get an error, the callback must
-// have been called with the panic object, and both siblings must complete.
+// panic fired - whatever kind of value it carried - the process must survive, the target request
+// must get an error (a panics.RecoveredPanicErr with that value on the side where it is local, a
+// failure status on the other), the callback must have been called exactly once with that very
+// value, and both siblings must complete.
 package panics
 
 import (
@@ -77,8 +87,63 @@ import (
 	"verifharness/reg"
 )
 
-// PanicObj is the value every injected panic carries.
+// PanicObj is the value a `str` injection passes to panic.
 const PanicObj = "verif-injected-panic"
+
+// Vals are the kinds of panic values.
+var Vals = []string{"str", "err", "rt-nilmap", "rt-nilptr", "rt-index", "struct"}
+
+var errInjected = errors.New("verif-injected-error")
+
+type injectedStruct struct {
+	Code int
+	Msg  string
+}
+
+var structInjected = injectedStruct{42, "verif-injected-struct"}
+
+var sink int
+
+// raise panics with a value of the given kind; the rt-* kinds are genuine runtime panics.
+func raise(val string) {
+	switch val {
+	case "err":
+		panic(errInjected)
+	case "rt-nilmap":
+		var m map[string]int
+		m["x"] = 1
+	case "rt-nilptr":
+		var p *injectedStruct
+		sink = p.Code
+	case "rt-index":
+		s := make([]int, sink&1)
+		sink = s[len(s)+3]
+	case "struct":
+		panic(structInjected)
+	}
+	panic(PanicObj)
+}
+
+// valueOK: is obj the very value an injection of kind val raised?  string / struct: equal; error:
+// the same error value; runtime panics: a runtime.Error of the expected message class.
+func valueOK(val string, obj any) bool {
+	switch val {
+	case "str":
+		return obj == any(PanicObj)
+	case "err":
+		e, ok := obj.(error)
+		return ok && e == errInjected
+	case "struct":
+		v, ok := obj.(injectedStruct)
+		return ok && v == structInjected
+	}
+	re, ok := obj.(runtime.Error)
+	if !ok {
+		return false
+	}
+	want := map[string]string{"rt-nilmap": "assignment to entry in nil map", "rt-nilptr": "nil pointer dereference", "rt-index": "index out of range"}[val]
+	return want != "" && strings.Contains(re.Error(), want)
+}
 
 var Sides = []string{"requestor", "responder"}
 var Kinds = []string{"codec", "reifier", "chooser", "selector", "storage-read", "storage-read-stream",
@@ -100,10 +165,11 @@ type op struct {
 	block, n   int
 	pre        int
 	ls         string
+	val        string
 }
 
 func (o op) String() string {
-	return fmt.Sprintf("inject %s %s %d %d %d %s", o.side, o.kind, o.block, o.n, o.pre, o.ls)
+	return fmt.Sprintf("inject %s %s %d %d %d %s %s", o.side, o.kind, o.block, o.n, o.pre, o.ls, o.val)
 }
 
 // reachedPre picks, for a block index, a local prefix length under which the injected function is
@@ -143,16 +209,39 @@ func gen(seed int64, count int, tier string, w *bufio.Writer) {
 		blocks = []int{0, 1, 2, n / 2, n - 2, n - 1}
 		lss = []string{"def", "opt"}
 	}
+	// the kinds of panic VALUES are spread over the injections (round robin), not multiplied
+	vi := 0
+	nextVal := func() string { vi++; return Vals[(vi-1)%len(Vals)] }
+	// a few direct calls of panics.MakeHandler (in process, cheap)
+	fmt.Fprintf(w, "case g-handler\n")
+	for _, v := range []string{"nil", "str", "err", "rt", "struct"} {
+		for _, cb := range []string{"cb", "nocb"} {
+			fmt.Fprintf(w, "handler %s %s\n", v, cb)
+		}
+	}
 	emitted := 0
-	for _, side := range Sides {
-		for _, kind := range Kinds {
+	for si, side := range Sides {
+		for ki, kind := range Kinds {
 			for _, ls := range lss {
 				var ops []op
+				vi = si*len(Kinds) + ki // rotate the starting value per (side, kind)
 				for _, k := range blocks {
-					ops = append(ops, op{side, kind, k, n, pickPre(r, side, kind, k, n), ls})
+					ops = append(ops, op{side, kind, k, n, pickPre(r, side, kind, k, n), ls, nextVal()})
 				}
 				emit(ops)
 				emitted++
+			}
+			if tier == "thorough" {
+				// every kind x side x value kind at a block where the injection is certainly reached
+				pre := 0
+				if kind == "storage-read" || kind == "storage-read-stream" {
+					pre = 2
+				}
+				var ops []op
+				for _, v := range Vals {
+					ops = append(ops, op{side, kind, 1, n, pre, "def", v})
+				}
+				emit(ops)
 			}
 		}
 	}
@@ -165,10 +254,77 @@ func gen(seed int64, count int, tier string, w *bufio.Writer) {
 		var ops []op
 		for j := 0; j < 3; j++ {
 			k := r.Intn(n)
-			ops = append(ops, op{side, kind, k, n, pickPre(r, side, kind, k, n), ls})
+			ops = append(ops, op{side, kind, k, n, pickPre(r, side, kind, k, n), ls, Vals[r.Intn(len(Vals))]})
 		}
 		emit(ops)
 	}
+}
+
+// ---------------------------------------------------------------------------------------------
+// `handler <value> <cb|nocb>`: panics.MakeHandler called directly
+
+func handlerOp(t []string) (result, bool) {
+	var res result
+	if len(t) != 3 || t[0] != "handler" || !contains([]string{"nil", "str", "err", "rt", "struct"}, t[1]) || (t[2] != "cb" && t[2] != "nocb") {
+		return res, false
+	}
+	var v any
+	val := t[1]
+	switch t[1] {
+	case "str":
+		v = PanicObj
+	case "err":
+		v = errInjected
+	case "struct":
+		v = structInjected
+	case "rt":
+		val = "rt-nilmap"
+		func() {
+			defer func() { v = recover() }()
+			raise("rt-nilmap")
+		}()
+	}
+	var got []any
+	var cb gspanics.CallBackFn
+	if t[2] == "cb" {
+		cb = func(obj any, stack string) { got = append(got, obj) }
+	}
+	err := gspanics.MakeHandler(cb)(v)
+	var rpe gspanics.RecoveredPanicErr
+	isRPE := err != nil && errors.As(err, &rpe)
+	objOK := isRPE && v != nil && valueOK(val, rpe.PanicObj)
+	cbval := "-"
+	if len(got) > 0 {
+		ok := true
+		for _, g := range got {
+			ok = ok && v != nil && valueOK(val, g)
+		}
+		cbval = strconv.Itoa(b2i(ok))
+	}
+	res.line = fmt.Sprintf("nil=%d rpe=%d obj=%d cb=%d cbval=%s", b2i(err == nil), b2i(isRPE), b2i(objOK), len(got), cbval)
+	// oracle, from the property sentence: every panic (non-nil value) becomes a RecoveredPanicErr-kind
+	// error carrying the value and is passed to the configured callback exactly once; no panic, no error
+	tag := "handler-" + t[1]
+	if v == nil {
+		if err != nil || len(got) != 0 {
+			res.fails = append(res.fails, [2]string{"handler-spurious", fmt.Sprintf("MakeHandler reported a panic for recover() == nil: err=%v callbacks=%d", err, len(got))})
+		}
+	} else {
+		if !objOK {
+			res.fails = append(res.fails, [2]string{"not-recovered-err-" + tag, fmt.Sprintf("MakeHandler(%s value) did not return a RecoveredPanicErr carrying the value: %T %v", t[1], err, err)})
+		}
+		if t[2] == "cb" && len(got) == 0 {
+			res.fails = append(res.fails, [2]string{"no-callback-" + tag, fmt.Sprintf("MakeHandler(%s value) did not call the configured callback", t[1])})
+		}
+		if len(got) > 1 {
+			res.fails = append(res.fails, [2]string{"callback-count-" + tag, fmt.Sprintf("MakeHandler(%s value) called the callback %d times", t[1], len(got))})
+		}
+		if cbval == "0" {
+			res.fails = append(res.fails, [2]string{"wrong-callback-value-" + tag, fmt.Sprintf("MakeHandler(%s value) passed a different value to the callback", t[1])})
+		}
+	}
+	res.cov = append(res.cov, "handler:"+t[1]+"-"+t[2])
+	return res, true
 }
 
 // ---------------------------------------------------------------------------------------------
@@ -181,8 +337,12 @@ type result struct {
 }
 
 func parseOp(t []string) (op, bool) {
-	if len(t) != 7 || t[0] != "inject" {
+	if (len(t) != 7 && len(t) != 8) || t[0] != "inject" {
 		return op{}, false
+	}
+	val := "str" // older case files have no value token
+	if len(t) == 8 {
+		val = t[7]
 	}
 	k, e1 := strconv.Atoi(t[3])
 	n, e2 := strconv.Atoi(t[4])
@@ -190,7 +350,10 @@ func parseOp(t []string) (op, bool) {
 	if e1 != nil || e2 != nil || e3 != nil || k < 0 || n < 1 || n > 64 || k >= n || pre < 0 || pre > n {
 		return op{}, false
 	}
-	o := op{t[1], t[2], k, n, pre, t[6]}
+	o := op{t[1], t[2], k, n, pre, t[6], val}
+	if !contains(Vals, val) {
+		return op{}, false
+	}
 	if !contains(Sides, o.side) || !(contains(Kinds, o.kind) || contains(ExtraKinds, o.kind)) || (o.ls != "def" && o.ls != "opt") {
 		return op{}, false
 	}
@@ -212,7 +375,7 @@ func runOne(o op) result {
 	var res result
 	ctx, cancel := context.WithTimeout(context.Background(), childTimeout)
 	defer cancel()
-	cmd := exec.CommandContext(ctx, os.Args[0], "child", o.side, o.kind, strconv.Itoa(o.block), strconv.Itoa(o.n), strconv.Itoa(o.pre), o.ls)
+	cmd := exec.CommandContext(ctx, os.Args[0], "child", o.side, o.kind, strconv.Itoa(o.block), strconv.Itoa(o.n), strconv.Itoa(o.pre), o.ls, o.val)
 	var stdout, stderr bytes.Buffer
 	cmd.Stdout = &stdout
 	cmd.Stderr = &stderr
@@ -233,11 +396,11 @@ func runOne(o op) result {
 	tail = strings.ReplaceAll(tail, "\n", " | ")
 	if err != nil || resLine == "" {
 		// the child died.  A Go panic exits with status 2 and prints "panic: <obj>" on stderr.
-		res.line = fmt.Sprintf("survived=0 fired=%d err=- cb=- sibling=-", b2i(fired))
+		res.line = fmt.Sprintf("survived=0 fired=%d err=- cb=- val=- sibling=-", b2i(fired))
 		switch {
 		case ctx.Err() != nil:
 			res.fails = append(res.fails, [2]string{"harness-error", "child timed out: " + o.String()})
-		case strings.Contains(stderr.String(), "panic: "+PanicObj) && fired:
+		case strings.Contains(stderr.String(), "panic:") && strings.Contains(stderr.String(), "panics.raise(") && fired:
 			res.fails = append(res.fails, [2]string{"crash-" + tag, fmt.Sprintf("process died of the injected panic (%s): %v; stderr: %s", o.String(), err, tail)})
 		case strings.Contains(stderr.String(), "panic:") || strings.Contains(stderr.String(), "fatal error:"):
 			res.fails = append(res.fails, [2]string{"crash-other-" + tag, fmt.Sprintf("process crashed (%s): %v; stderr: %s", o.String(), err, tail)})
@@ -254,7 +417,7 @@ func runOne(o op) result {
 			f[kv[:i]] = kv[i+1:]
 		}
 	}
-	res.line = fmt.Sprintf("survived=1 fired=%s err=%s cb=%s sibling=%s", f["fired"], f["err"], f["cb"], f["sibling"])
+	res.line = fmt.Sprintf("survived=1 fired=%s err=%s cb=%s val=%s sibling=%s", f["fired"], f["err"], f["cb"], f["val"], f["sibling"])
 	detail := resLine
 	// ---- oracle, from the property sentence
 	if f["fired"] == "1" {
@@ -265,9 +428,19 @@ func runOne(o op) result {
 			// the remote client neither learned of the failure nor holds the complete result
 			res.fails = append(res.fails, [2]string{"no-error-" + tag, fmt.Sprintf("the requesting client was left without an error and without the complete result (%s): %s", o.String(), detail)})
 		}
-		if f["cb"] == "0" {
-			res.fails = append(res.fails, [2]string{"no-callback-" + tag, fmt.Sprintf("the panic callback was not called with the panic object (%s): %s", o.String(), detail)})
+		if o.side == "requestor" && f["err"] != "panic" && f["err"] != "none" && f["err"] != "hang" {
+			res.fails = append(res.fails, [2]string{"not-recovered-err-" + tag, fmt.Sprintf("the error delivered for the request is not a RecoveredPanicErr (panic value kind %s; %s): %s", o.val, o.String(), detail)})
 		}
+		switch {
+		case f["cb"] == "0":
+			res.fails = append(res.fails, [2]string{"no-callback-" + tag, fmt.Sprintf("the panic callback was not called (panic value kind %s; %s): %s", o.val, o.String(), detail)})
+		case f["cb"] != "1":
+			res.fails = append(res.fails, [2]string{"callback-count-" + tag, fmt.Sprintf("the panic callback was called %s times for one panic (panic value kind %s; %s): %s", f["cb"], o.val, o.String(), detail)})
+		}
+		if f["val"] != "1" {
+			res.fails = append(res.fails, [2]string{"wrong-callback-value-" + tag, fmt.Sprintf("the callback / the RecoveredPanicErr does not carry the value that was passed to panic (panic value kind %s; %s): %s", o.val, o.String(), detail)})
+		}
+		res.cov = append(res.cov, "val:"+o.val)
 		res.cov = append(res.cov, "outcome:fired-err-"+f["err"])
 	} else {
 		if f["err"] != "none" || f["client"] != "none" {
@@ -294,6 +467,7 @@ func run(cases []reg.Case, out *reg.Out) {
 		ci, oi int
 		o      op
 		ok     bool
+		pre    *result // already computed (in-process ops)
 	}
 	var jobs []job
 	for ci, c := range cases {
@@ -302,7 +476,11 @@ func run(cases []reg.Case, out *reg.Out) {
 			if ok && contains(ExtraKinds, o.kind) {
 				ok = false // experiments are only run by hand through `child`
 			}
-			jobs = append(jobs, job{ci, oi, o, ok})
+			var pre *result
+			if hr, isH := handlerOp(t); isH {
+				pre, ok = &hr, false
+			}
+			jobs = append(jobs, job{ci, oi, o, ok, pre})
 		}
 	}
 	results := make([]result, len(jobs))
@@ -326,6 +504,10 @@ func run(cases []reg.Case, out *reg.Out) {
 				i := int(atomic.AddInt64(&next, 1))
 				if i >= len(jobs) {
 					return
+				}
+				if jobs[i].pre != nil {
+					results[i] = *jobs[i].pre
+					continue
 				}
 				if !jobs[i].ok {
 					results[i] = result{line: "bad-op"}
@@ -361,7 +543,7 @@ func run(cases []reg.Case, out *reg.Out) {
 				default:
 					out.Cov("block:inner")
 				}
-			} else {
+			} else if j.pre == nil {
 				out.Cov("bad-op")
 			}
 		}
@@ -456,6 +638,7 @@ func (s *store) has(c *chain) int {
 
 // injector decides, inside a user-supplied function, whether this call is the one that panics.
 type injector struct {
+	val    string
 	kind   string
 	block  int
 	target *chain
@@ -484,7 +667,7 @@ func (in *injector) fire() {
 	if atomic.CompareAndSwapInt32(&in.armed, 1, 0) {
 		atomic.StoreInt32(&in.fired, 1)
 		os.Stdout.WriteString("#fired\n") // unbuffered: survives the crash of this process
-		panic(PanicObj)
+		raise(in.val)
 	}
 }
 
@@ -643,11 +826,11 @@ func (c *cbLog) cb(obj any, _ string) {
 	c.objs = append(c.objs, obj)
 	c.mu.Unlock()
 }
-func (c *cbLog) count(obj any) (match, other int) {
+func (c *cbLog) count(val string) (match, other int) {
 	c.mu.Lock()
 	defer c.mu.Unlock()
 	for _, o := range c.objs {
-		if o == obj {
+		if valueOK(val, o) {
 			match++
 		} else {
 			other++
@@ -722,7 +905,7 @@ func child(o op) (string, error) {
 			index[l.String()] = blockRef{c.id, i}
 		}
 	}
-	in := &injector{kind: o.kind, block: o.block, target: target, index: index, armed: 1}
+	in := &injector{val: o.val, kind: o.kind, block: o.block, target: target, index: index, armed: 1}
 	injFor := func(side string) *injector {
 		if side == o.side {
 			return in
@@ -834,6 +1017,7 @@ func child(o op) (string, error) {
 	// ---- observations
 	fired := atomic.LoadInt32(&in.fired) == 1
 	client := "none"
+	rpeSeen, rpeValOK := false, true
 	var errText string
 	switch {
 	case rt.hang:
@@ -842,8 +1026,10 @@ func child(o op) (string, error) {
 		client = "other"
 		for _, e := range rt.errs {
 			var rpe gspanics.RecoveredPanicErr
-			if errors.As(e, &rpe) && rpe.PanicObj == PanicObj {
+			if errors.As(e, &rpe) {
 				client = "panic"
+				rpeSeen = true
+				rpeValOK = rpeValOK && valueOK(o.val, rpe.PanicObj)
 				break
 			}
 			if _, ok := e.(graphsync.RequestFailedUnknownErr); ok {
@@ -893,14 +1079,19 @@ func child(o op) (string, error) {
 	if o.side == "responder" {
 		cbLogOf, cbOther = &cbResp, &cbReq
 	}
-	match, stray := cbLogOf.count(PanicObj)
-	om, os_ := cbOther.count(PanicObj)
+	match, stray := cbLogOf.count(o.val)
+	om, os_ := cbOther.count(o.val)
+	valField := "-"
+	if fired {
+		valField = strconv.Itoa(b2i(stray == 0 && rpeValOK))
+	}
+	_ = rpeSeen
 	sibOK := func(r reqResult, c *chain, st *store) bool {
 		return !r.hang && len(r.errs) == 0 && r.blocks == o.n && st.has(c) == o.n
 	}
 	s1, s2 := sibOK(r1, sib1, reqStoreS), sibOK(r2, sib2, reqStoreT)
 	clientComplete := client == "none" && rt.blocks == o.n && reqStoreT.has(target) == o.n
-	line := fmt.Sprintf("fired=%d err=%s cb=%d sibling=%d", b2i(fired), errKind, match, b2i(s1 && s2))
+	line := fmt.Sprintf("fired=%d err=%s cb=%d val=%s sibling=%d", b2i(fired), errKind, match+stray, valField, b2i(s1 && s2))
 	line += fmt.Sprintf(" client=%s clientcomplete=%d errtype=%s nerrs=%d targetblocks=%d stored=%d respstatus=%s straycb=%d othersidecb=%d sib1=%d/%d sib2=%d/%d",
 		client, b2i(clientComplete), strings.ReplaceAll(errText, " ", "_"), len(rt.errs), rt.blocks, reqStoreT.has(target), tsText, stray, om+os_, r1.blocks, len(r1.errs), r2.blocks, len(r2.errs))
 	return line, nil
